@@ -290,3 +290,264 @@ Proof.
   eexists. eexists. split; [vm_compute; reflexivity|]. split; [vm_compute; reflexivity|]. split; vm_compute; reflexivity.
 Qed.
 Print Assumptions C14_debug_split_refuted.
+
+(* ==========================================================================================
+   The bigBed writer (Model/SinkTraceBed.v): BigBedWrite::write / write_multipass through the same
+   BufWriter model and call interpreter.  Its write_pre stores the autoSql text, NUL-terminated, at
+   offset 304, so the total-summary slot and the item count — the 48 bytes write_info patches after
+   the header operation — lie at [305 + |autoSql|, 353 + |autoSql|), and the data begins there.
+   [bb_parts fp kind o sizes autosql input = Ok (sql, p)]: the input is accepted, [sql] is the text
+   stored (the supplied one, or the library's BED3 schema), [p] the regions of the file.
+   [bb_sink_run f ck fp kind o sizes autosql input] = (what `write` returns, the operations that
+   reached the destination) when the sink operation [f] (if any) is made to fail. *)
+From BT Require Model.BigBedWrite Model.BBIReadBed Model.SinkTraceBed Proofs.BedEndToEnd
+  Proofs.SinkBedPhases Proofs.SinkBedRefine Proofs.SinkBedServe.
+
+Module Bed.
+Import Model.BigBedWrite Model.BBIReadBed Model.SinkTraceBed Proofs.SinkBedPhases Proofs.SinkBedRefine Proofs.SinkBedServe.
+
+(* The header operation: one write at offset 0 of the 64-byte header and the zoom directory,
+   beginning with the bigBed magic, not reaching the autoSql at offset 304. *)
+Theorem C14_bb_header_operation : forall ck fp kind o sizes autosql input sql p,
+  chunker_ok ck -> bb_parts fp kind o sizes autosql input = Ok (sql, p) ->
+  nth_error (snd (bb_sink_run None ck fp kind o sizes autosql input)) (bb_header_index ck kind sql p)
+    = Some (SWrite 0 (p_hdr p ++ p_zdir p))
+  /\ firstn 4 (p_hdr p) = u32 BIGBED_MAGIC /\ Nlen (p_hdr p ++ p_zdir p) <= 304.
+Proof.
+  intros ck fp kind o sizes autosql input sql p Hck Hp. destruct (bb_parts_ok fp kind o sizes autosql input sql p Hp) as [K M].
+  rewrite (bb_sink_run_accepted None ck fp kind o sizes autosql input sql p Hp). split; [|split].
+  - exact (bb_header_at ck kind sql p Hck K).
+  - exact M.
+  - rewrite Nlen_app', (bk_hdr sql p K). pose proof (bk_zdir sql p K). lia.
+Qed.
+Print Assumptions C14_bb_header_operation.
+
+(* Every crash point before the header operation — [n] completed operations and any number [c] of
+   bytes of the next write — leaves a destination that read_info refuses: its first four bytes
+   are zero (the autoSql text, the data, the chromosome tree, the index and the zoom levels are all
+   written at or after offset 304), or it is shorter than a header. *)
+Theorem C14_bb_prefix_rejected : forall ck fp kind o sizes autosql input sql p n c,
+  chunker_ok ck -> bb_parts fp kind o sizes autosql input = Ok (sql, p) ->
+  (n < bb_header_index ck kind sql p)%nat ->
+  rejected (replay (cut_ops (snd (bb_sink_run None ck fp kind o sizes autosql input)) n c)).
+Proof.
+  intros ck fp kind o sizes autosql input sql p n c Hck Hp Hn. destruct (bb_parts_ok fp kind o sizes autosql input sql p Hp) as [K _].
+  rewrite (bb_sink_run_accepted None ck fp kind o sizes autosql input sql p Hp).
+  exact (bb_crash_before_rejected ck kind sql p Hck K n c Hn).
+Qed.
+Print Assumptions C14_bb_prefix_rejected.
+
+(* ... including the crash point immediately before the header operation itself. *)
+Theorem C14_bb_prefix_rejected_ops : forall ck fp kind o sizes autosql input sql p n,
+  chunker_ok ck -> bb_parts fp kind o sizes autosql input = Ok (sql, p) ->
+  (n <= bb_header_index ck kind sql p)%nat ->
+  rejected (replay (firstn n (snd (bb_sink_run None ck fp kind o sizes autosql input)))).
+Proof.
+  intros ck fp kind o sizes autosql input sql p n Hck Hp Hn. destruct (bb_parts_ok fp kind o sizes autosql input sql p Hp) as [K _].
+  rewrite (bb_sink_run_accepted None ck fp kind o sizes autosql input sql p Hp).
+  exact (bb_crash_at_header_rejected ck kind sql p Hck K n Hn).
+Qed.
+Print Assumptions C14_bb_prefix_rejected_ops.
+
+(* Every crash point that includes the header operation: the destination has the length of the
+   finished file up to the 4-byte closing magic, and every byte of it outside the total-summary
+   slot and the item count, [305 + |sql|, 353 + |sql|), already has its final value: the header,
+   the zoom directory, the autoSql text, the data, the chromosome tree, the index and every zoom
+   level's data and index. *)
+Theorem C14_bb_prefix_complete : forall ck fp kind o sizes autosql input sql p n c,
+  chunker_ok ck -> bb_parts fp kind o sizes autosql input = Ok (sql, p) ->
+  (bb_header_index ck kind sql p < n)%nat ->
+  complete_at (305 + length sql) p (replay (cut_ops (snd (bb_sink_run None ck fp kind o sizes autosql input)) n c)).
+Proof.
+  intros ck fp kind o sizes autosql input sql p n c Hck Hp Hn. destruct (bb_parts_ok fp kind o sizes autosql input sql p Hp) as [K _].
+  rewrite (bb_sink_run_accepted None ck fp kind o sizes autosql input sql p Hp).
+  replace (305 + length sql)%nat with (N.to_nat (p_so p)) by (rewrite (bk_so sql p K); unfold Nlen; lia).
+  exact (bb_crash_after_complete ck kind sql p Hck K n c Hn).
+Qed.
+Print Assumptions C14_bb_prefix_complete.
+
+(* The undisturbed run returns Ok and its trace replays to the bytes of Model/BigBedWrite.v (the
+   byte-exact writer model of C02/C04/C06/C08), whatever the chunking. *)
+Theorem C14_bb_trace_is_file : forall ck fp o sizes autosql input sql p,
+  chunker_ok ck -> bb_parts fp 0 o sizes autosql input = Ok (sql, p) ->
+  fst (bb_sink_run None ck fp 0 o sizes autosql input) = Ok tt
+  /\ bb_write fp o sizes autosql input = Ok (replay (snd (bb_sink_run None ck fp 0 o sizes autosql input))).
+Proof.
+  intros ck fp o sizes autosql input sql p Hck Hp. destruct (bb_parts_ok fp 0 o sizes autosql input sql p Hp) as [K _].
+  rewrite (bb_sink_run_accepted None ck fp 0 o sizes autosql input sql p Hp). split.
+  - exact (bb_accept_returns_ok ck 0 sql p Hck K).
+  - rewrite bb_write_refines, Hp. cbn [rbind snd]. f_equal. symmetry. exact (bb_replay_final ck 0 sql p Hck K).
+Qed.
+Print Assumptions C14_bb_trace_is_file.
+
+Theorem C14_bb_trace_is_file_multipass : forall ck fp o sizes autosql input sql p,
+  chunker_ok ck -> bb_parts fp 1 o sizes autosql input = Ok (sql, p) ->
+  fst (bb_sink_run None ck fp 1 o sizes autosql input) = Ok tt
+  /\ bb_write_multipass fp o sizes autosql input = Ok (replay (snd (bb_sink_run None ck fp 1 o sizes autosql input))).
+Proof.
+  intros ck fp o sizes autosql input sql p Hck Hp. destruct (bb_parts_ok fp 1 o sizes autosql input sql p Hp) as [K _].
+  rewrite (bb_sink_run_accepted None ck fp 1 o sizes autosql input sql p Hp). split.
+  - exact (bb_accept_returns_ok ck 1 sql p Hck K).
+  - rewrite bb_write_multipass_refines, Hp. cbn [rbind snd]. f_equal. symmetry. exact (bb_replay_final ck 1 sql p Hck K).
+Qed.
+Print Assumptions C14_bb_trace_is_file_multipass.
+
+(* What the READERS answer at a crash point that includes the header operation (composition with
+   the whole-file theorem of C02/C04, redone for any image holding the regions:
+   Proofs/SinkBedRead.v).  Hypotheses as in C02_written_file_roundtrip / C04_written_file_query
+   ([file_hyps]: block_size <= 65535, fewer than 65536 chromosomes, names NUL-free and shorter
+   than 2^32, entries with start, end < 2^32, NUL-free rest, not [0,0); sizes < 2^32; file <= 2^64).
+   [bb_serves autosql input F X]: read_info returns the SAME header, zoom directory and chromosome
+   table on the crash-point image X as on the finished file F; every range query on a chromosome
+   that had data returns on X, as on F, exactly the stored entries the reader's overlap test keeps,
+   in stored order; and autosql() returns the stored text on both.  (The total summary and the item
+   count are what may still be missing; zoom-level queries are covered at the byte level by
+   C14_bb_prefix_complete.) *)
+Theorem C14_bb_prefix_serves : forall ck fp kind o sizes autosql input sql p n c,
+  chunker_ok ck -> bb_parts fp kind o sizes autosql input = Ok (sql, p) ->
+  BedEndToEnd.file_hyps o sizes input (final_bytes p) ->
+  (bb_header_index ck kind sql p < n)%nat ->
+  let T := snd (bb_sink_run None ck fp kind o sizes autosql input) in
+  bb_serves autosql input (replay T) (replay (cut_ops T n c)).
+Proof. exact bb_crash_after_serves. Qed.
+Print Assumptions C14_bb_prefix_serves.
+
+(* Refused calls (refused options, a refused autoSql, a refused input, panic or non-termination of
+   the pure writer model): `write` does not return Ok, and at every crash point of whatever
+   reached the destination — nothing, the blank headers, or write_pre and sections encoded before
+   the refusal — read_info refuses the file. *)
+Theorem C14_bb_refused_input : forall ck fp kind o sizes autosql input n c,
+  chunker_ok ck -> (forall sp, bb_parts fp kind o sizes autosql input <> Ok sp) ->
+  fst (bb_sink_run None ck fp kind o sizes autosql input) <> Ok tt
+  /\ rejected (replay (cut_ops (snd (bb_sink_run None ck fp kind o sizes autosql input)) n c)).
+Proof.
+  intros ck fp kind o sizes autosql input n c Hck Hno. unfold bb_sink_run. unfold bb_parts in Hno.
+  destruct ((o_bs o <? 2) || (o_ips o <? 1)).
+  - split; [apply refused_status_any; discriminate|]. apply zero4_rejected, zero4_replay, phase1_cut. constructor.
+  - destruct (bb_schema autosql) as [[sql fc]| e | |]; cbn [rbind] in Hno.
+    + destruct (bb_parts_after_pre fp kind o sizes sql fc input) as [p| e | |]; cbn [rbind] in Hno;
+        [exfalso; exact (Hno (sql, p) eq_refl)| | |];
+        (split; [apply refused_status_any; discriminate
+                |apply zero4_rejected, zero4_replay, phase1_cut, bb_refused_phase1; exact Hck]).
+    + split; [apply refused_status_any; discriminate|apply zero4_rejected, zero4_replay, phase1_cut, refused_schema_phase1].
+    + split; [apply refused_status_any; discriminate|apply zero4_rejected, zero4_replay, phase1_cut, refused_schema_phase1].
+    + split; [apply refused_status_any; discriminate|apply zero4_rejected, zero4_replay, phase1_cut, refused_schema_phase1].
+Qed.
+Print Assumptions C14_bb_refused_input.
+
+(* Failures of the destination: for every operation of the undisturbed trace — the k-th seek, the
+   k-th write or the k-th flush, for every k — if that operation fails, `write` does not return Ok.
+   (No hypothesis.) *)
+Theorem C14_bb_fault : forall ck fp kind o sizes autosql input kd k,
+  (k < count_kind kd (snd (bb_sink_run None ck fp kind o sizes autosql input)))%nat ->
+  fst (bb_sink_run (Some (kd, k)) ck fp kind o sizes autosql input) <> Ok tt.
+Proof.
+  intros ck fp kind o sizes autosql input kd k. unfold bb_sink_run.
+  destruct ((o_bs o <? 2) || (o_ips o <? 1)); [intros _; apply refused_status_any; discriminate|].
+  destruct (bb_schema autosql) as [[sql fc]| e | |]; try (intros _; apply refused_status_any; discriminate).
+  destruct (bb_parts_after_pre fp kind o sizes sql fc input) as [p| e | |]; try (intros _; apply refused_status_any; discriminate).
+  unfold bb_calls_accept, calls_info. cbn [app].
+  replace (bb_calls_body ck kind sql p ++ CSeek (ToStart 0) :: W (p_hdr p) :: W (p_zdir p) :: CSeek (ToStart (p_so p)) :: W (p_sum p)
+           :: CSeek (ToStart (p_fdo p)) :: W (p_cnt p) :: CSeek ToEnd :: W (p_magic p) :: [CFlush])
+    with ((bb_calls_body ck kind sql p ++ [CSeek (ToStart 0); W (p_hdr p); W (p_zdir p); CSeek (ToStart (p_so p)); W (p_sum p);
+           CSeek (ToStart (p_fdo p)); W (p_cnt p); CSeek ToEnd; W (p_magic p)]) ++ [CFlush])
+    by (rewrite <- app_assoc; reflexivity).
+  apply fault_not_ok.
+Qed.
+Print Assumptions C14_bb_fault.
+
+(* After any failure what has reached the destination is the first n operations of the undisturbed
+   trace, for some n: the destination is in one of the crash-point states above. *)
+Theorem C14_bb_fault_state : forall f ck fp kind o sizes autosql input,
+  exists n, snd (bb_sink_run f ck fp kind o sizes autosql input)
+            = firstn n (snd (bb_sink_run None ck fp kind o sizes autosql input)).
+Proof.
+  intros f ck fp kind o sizes autosql input. unfold bb_sink_run.
+  assert (H : forall status cs, exists n, snd (run f status cs) = firstn n (snd (run None status cs))).
+  { intros status cs. destruct (fault_prefix f status cs) as [t E]. exists (length (snd (run f status cs))).
+    rewrite E, firstn_app, Nat.sub_diag, firstn_all. cbn [firstn]. now rewrite app_nil_r. }
+  destruct ((o_bs o <? 2) || (o_ips o <? 1)); [apply H|].
+  destruct (bb_schema autosql) as [[sql fc]| e | |]; try apply H.
+  destruct (bb_parts_after_pre fp kind o sizes sql fc input); apply H.
+Qed.
+Print Assumptions C14_bb_fault_state.
+
+(* ------------------------------------------------------------------------------------------
+   Non-vacuity: a concrete input (one chromosome, three overlapping entries with rest fields, the
+   library's BED3 schema, one zoom level) is accepted by both writers; the header operation is
+   number 26 of 34 (31 of 39 when every region arrives in two pieces, one of them copied). *)
+Definition exb_input : list bitem :=
+  [(ex_chr1, {| e_start := 0; e_end := 50; e_rest := [97] |});
+   (ex_chr1, {| e_start := 3; e_end := 25; e_rest := [] |});
+   (ex_chr1, {| e_start := 20; e_end := 30; e_rest := [98; 9; 99] |})].
+Definition exb_trace (ck : chunker) (kind : N) := snd (bb_sink_run None ck ieee kind ex_o ex_sizes None exb_input).
+
+Example C14_bb_example_accepted :
+  exists p, bb_parts ieee 0 ex_o ex_sizes None exb_input = Ok (AUTOSQL_BED3, p)
+    /\ bb_header_index ck_whole 0 AUTOSQL_BED3 p = 26%nat /\ length (exb_trace ck_whole 0) = 34%nat
+    /\ bb_header_index ck_split 0 AUTOSQL_BED3 p = 31%nat /\ length (exb_trace ck_split 0) = 39%nat
+    /\ count_kind 0 (exb_trace ck_whole 0) = 18%nat /\ count_kind 1 (exb_trace ck_whole 0) = 15%nat
+    /\ count_kind 2 (exb_trace ck_whole 0) = 1%nat
+    /\ (exists p1, bb_parts ieee 1 ex_o ex_sizes None exb_input = Ok (AUTOSQL_BED3, p1)
+                   /\ bb_header_index ck_whole 1 AUTOSQL_BED3 p1 = 26%nat).
+Proof.
+  eexists. split; [vm_compute; reflexivity|].
+  repeat (split; [vm_compute; reflexivity|]).
+  eexists. split; vm_compute; reflexivity.
+Qed.
+
+(* the two sides of the crash-point theorems on the example *)
+Example C14_bb_example_crash_points :
+  let T := exb_trace ck_whole 0 in
+  read_info (replay (firstn 26 T)) = Err R_MAGIC
+  /\ (exists i, read_info (replay T) = Ok i
+               /\ read_info (replay (firstn 27 T)) = Ok i
+               /\ bb_interval (fun l => l) (replay (firstn 27 T)) i ex_chr1 4 22
+                  = Ok [{| e_start := 0; e_end := 50; e_rest := [97] |}; {| e_start := 3; e_end := 25; e_rest := [] |};
+                        {| e_start := 20; e_end := 30; e_rest := [98; 9; 99] |}]
+               /\ bb_interval (fun l => l) (replay T) i ex_chr1 26 40
+                  = Ok [{| e_start := 0; e_end := 50; e_rest := [97] |}; {| e_start := 20; e_end := 30; e_rest := [98; 9; 99] |}]
+               /\ bb_interval (fun l => l) (replay (firstn 27 T)) i ex_chr1 26 40 = bb_interval (fun l => l) (replay T) i ex_chr1 26 40
+               /\ bb_autosql (replay (firstn 27 T)) i = Ok (Some AUTOSQL_BED3)
+               /\ bb_item_count (replay (firstn 27 T)) i = Ok 0 /\ bb_item_count (replay T) i = Ok 3)
+  /\ replay (exb_trace ck_split 0) = replay T.
+Proof.
+  cbv zeta. split; [vm_compute; reflexivity|]. split; [|vm_compute; reflexivity].
+  eexists. split; [vm_compute; reflexivity|].
+  repeat (split; [vm_compute; reflexivity|]). vm_compute; reflexivity.
+Qed.
+
+Example C14_bb_example_serves_hyps :
+  exists p, bb_parts ieee 0 ex_o ex_sizes None exb_input = Ok (AUTOSQL_BED3, p)
+    /\ BedEndToEnd.file_hyps ex_o ex_sizes exb_input (final_bytes p).
+Proof.
+  eexists. split; [vm_compute; reflexivity|]. unfold BedEndToEnd.file_hyps.
+  split; [cbn; lia|]. split; [vm_compute; reflexivity|]. split; [|split].
+  - unfold BedEndToEnd.input_ok, exb_input. repeat constructor; cbn [fst snd e_start e_end e_rest];
+      try (unfold RTreeCodec.U32; vm_compute; reflexivity); try discriminate; try (intros [? ?]; discriminate).
+  - repeat constructor; cbn; unfold RTreeCodec.U32; lia.
+  - vm_compute. discriminate.
+Qed.
+
+(* refused calls: an autoSql with a NUL byte leaves the blank headers (written by the drop of the
+   BufWriter); entries out of order leave write_pre and the one section complete before the
+   refusal; refused options leave nothing *)
+Example C14_bb_example_refused :
+  bb_sink_run None ck_whole ieee 0 ex_o ex_sizes (Some [116; 0; 120]) exb_input
+    = (Err E_BED_AUTOSQL_NUL, [SSeek 0; SWrite 0 (repeatN 0 304)])
+  /\ (let bad := exb_input ++ [(ex_chr1, {| e_start := 10; e_end := 12; e_rest := [] |})] in
+      (forall sp, bb_parts ieee 0 ex_o1 ex_sizes None bad <> Ok sp)
+      /\ fst (bb_sink_run None ck_whole ieee 0 ex_o1 ex_sizes None bad) = Err E_BED_UNSORTED
+      /\ map (fun op => match op with SWrite q b => (q, Nlen b) | _ => (0, 0) end)
+             (filter (fun op => kind_of op =? 1) (snd (bb_sink_run None ck_whole ieee 0 ex_o1 ex_sizes None bad)))
+         = [(0, 304); (304, Nlen AUTOSQL_BED3 + 1); (305 + Nlen AUTOSQL_BED3, 40); (345 + Nlen AUTOSQL_BED3, 8);
+            (353 + Nlen AUTOSQL_BED3, 27)])
+  /\ bb_sink_run None ck_whole ieee 0 {| o_compress := false; o_ips := 0; o_bs := 256; o_izoom := 160; o_maxzooms := 10;
+                                         o_manual := None; o_sort_all := true |} ex_sizes None exb_input
+     = (Err E_BED_OPTIONS, []).
+Proof.
+  split; [vm_compute; reflexivity|]. split; [|vm_compute; reflexivity].
+  cbv zeta. split; [intros sp; vm_compute; discriminate|]. split; vm_compute; reflexivity.
+Qed.
+End Bed.
+Export Bed.
